@@ -183,6 +183,18 @@ def layer_oracle(impl, plus, L, edges, g, dt, eps0, default_sigma_end=False):
     return None
 
 
+class _Cfg:
+    """stand-in for a scene when only its config is needed (direct placement on an unplaced uniform config)"""
+
+    def __init__(self):
+        j = Y.J()
+        self.config = j["fdtdx"].SimulationConfig(time=1e-15, grid=j["fdtdx"].UniformGrid(spacing=50e-9),
+                                                  dtype=j["jnp"].float64, backend="cpu")
+
+
+UNIFORM_C = dict(shape=[22, 7, 6], widths=None, spec={}, params={}, seed=0)
+
+
 def direct_layer(rng, c, sc, thorough):
     """a PML placed directly with place_on_grid on the long axis (thickness 1..20)"""
     j = Y.J()
@@ -208,7 +220,7 @@ def k_scene(ctx, c, sample=False):
     for p in pmls:
         face = p.name[4:]
         check_layer(ctx, c, sc, p, c["params"].get(face, {}), "scene")
-    for _ in range(ctx.scale(3, 30)):
+    for _ in range(ctx.scale(2, 30)):
         q, given = direct_layer(ctx.rng, c, sc, ctx.thorough)
         check_layer(ctx, c, sc, q, given, "direct")
     # ---- step_cpml
@@ -275,7 +287,7 @@ def gen_scenario(rng, thorough, kind=None):
     n = 2 * th + rng.randint(12, 16)
     kind = kind or rng.choice(["dipole_e", "dipole_m"])
     lo, hi = th + 3, n - th - 4
-    return dict(kind=kind, n=n, th=th, pol=rng.randint(0, 2), pos=[rng.randint(lo, hi) for _ in range(3)],
+    return dict(kind="scenario", src=kind, n=n, th=th, pol=rng.randint(0, 2), pos=[rng.randint(lo, hi) for _ in range(3)],
                 axis=rng.randint(0, 2), direction=rng.choice(["+", "-"]), lam_cells=rng.choice([10, 12, 14]),
                 steps=700 if not thorough else 900, reference=False)
 
@@ -294,14 +306,15 @@ def scenario_scene(s, pad=0, field_det=False):
         prof = fdtdx.GaussianPulseProfile(spectral_width=fdtdx.WaveCharacter(wavelength=6 * lam), center_wave=wave)
         objs, cons = [], []
         pos = [p + pad for p in s["pos"]]
-        if s["kind"].startswith("dipole"):
+        if s["src"].startswith("dipole"):
             src = fdtdx.PointDipoleSource(partial_grid_shape=(1, 1, 1), wave_character=fdtdx.WaveCharacter(wavelength=lam),
                                           polarization=s["pol"], temporal_profile=prof, name="src",
-                                          source_type="electric" if s["kind"] == "dipole_e" else "magnetic")
+                                          source_type="electric" if s["src"] == "dipole_e" else "magnetic")
             cons.append(src.set_grid_coordinates(axes=(0, 1, 2), sides=("-", "-", "-"), coordinates=tuple(pos)))
         else:
+            # finite aperture = the observation window (same source in the scenario and in the reference domain)
             ax = s["axis"]
-            shp = [None, None, None]
+            shp = [win, win, win]
             shp[ax] = 1
             pol = [0.0, 0.0, 0.0]
             pol[(ax + 1 + s["pol"] % 2) % 3] = 1.0
@@ -309,6 +322,7 @@ def scenario_scene(s, pad=0, field_det=False):
                                            direction=s["direction"], fixed_E_polarization_vector=tuple(pol),
                                            temporal_profile=prof, name="src")
             cons.append(src.set_grid_coordinates(axes=ax, sides="-", coordinates=pos[ax]))
+            cons.append(src.place_at_center(vol, axes=tuple(a for a in range(3) if a != ax)))
         objs.append(src)
         det = fdtdx.EnergyDetector(name="en", reduce_volume=True, partial_grid_shape=(win, win, win), dtype=jnp.float64)
         cons.append(det.place_at_center(vol))
@@ -337,6 +351,8 @@ def scenario_fails(s):
     sc = scenario_scene(s, field_det=s.get("reference", False))
     ds = run_scene(sc)
     en = np.asarray(ds["en"]["energy"], dtype=np.float64).ravel()
+    if not np.all(np.isfinite(en)):
+        return f"energy record is not finite from step {int(np.argmin(np.isfinite(en)))} on (unstable layer)"
     peak = float(en.max())
     if not peak > 0:
         return "no energy was injected (peak = 0)"
@@ -347,7 +363,7 @@ def scenario_fails(s):
     if not res < 1e-6:
         return f"residual energy / peak = {res:.3e} >= 1e-6 after {en.size} steps"
     if s.get("reference", False):
-        ref = run_scene(scenario_scene(s, pad=24, field_det=True))
+        ref = run_scene(scenario_scene(s, pad=s.get("pad", 24), field_det=True))
         a = np.asarray(ds["fd"]["fields"], dtype=np.float64)
         b = np.asarray(ref["fd"]["fields"], dtype=np.float64)
         # energy-like norm: E components weighted by eps0, H by mu0 cancel in fdtdx's normalised units (H scaled by eta0)
@@ -362,17 +378,25 @@ def scenario_fails(s):
 def scenario_case(ctx, s, sample=False):
     d = scenario_fails(s)
     ctx.impl_property_evals += 1
-    ctx.case(sample=s if sample else None, nontrivial=("scenario", s["kind"], s["n"], s["th"], s["pol"], tuple(s["pos"]), s["reference"]),
-             scenario_kind=s["kind"], scenario_reference=s["reference"], scenario_th=s["th"])
+    ctx.case(sample=s if sample else None, nontrivial=("scenario", s["src"], s["n"], s["th"], s["pol"], tuple(s["pos"]), s["reference"]),
+             scenario_kind=s["src"], scenario_reference=s["reference"], scenario_th=s["th"])
     if d:
-        ctx.violation(dict(kind="scenario", **s), d)
+        ctx.violation(s, d)
 
 
 def run(ctx):
-    n_scenes = ctx.scale(1, 4)
-    for i in range(n_scenes):
-        for nonuni in (False, True):
-            k_scene(ctx, gen_scene(ctx.rng, nonuni), sample=(i == 0))
+    # quick: ONE placed scene (non-uniform grid; the uniform curl/forward path with PMLs is K-checked by C03's quick
+    # tier and run by the scenario below) + directly placed layers on a uniform config; thorough: both kinds, 4 each
+    if ctx.thorough:
+        for i in range(4):
+            for nonuni in (False, True):
+                k_scene(ctx, gen_scene(ctx.rng, nonuni), sample=(i == 0))
+    else:
+        k_scene(ctx, gen_scene(ctx.rng, True), sample=True)
+    uc = _Cfg()
+    for _ in range(ctx.scale(4, 20)):
+        q, given = direct_layer(ctx.rng, UNIFORM_C, uc, ctx.thorough)
+        check_layer(ctx, UNIFORM_C, uc, q, given, "direct-uniform")
     scenario_case(ctx, gen_scenario(ctx.rng, ctx.thorough), sample=True)
     if ctx.thorough:
         for kind in ("dipole_e", "dipole_m", "plane", "plane"):
@@ -390,7 +414,9 @@ def property_fails(inp):
         return scenario_fails(inp)
     # every other case lives in a scene: evaluate the coefficient oracle on all its layers, then a small scenario
     c = inp.get("scene", inp)
-    if "spec" not in c:
+    if inp.get("kind") == "coef" and inp.get("label", "").startswith("direct"):
+        return direct_fails(inp)
+    if "spec" not in c or not c["spec"]:
         return None
     from fdtdx import constants
     sc = scene_of(c)
@@ -405,22 +431,43 @@ def property_fails(inp):
     return None
 
 
+def direct_fails(inp):
+    """re-place one directly placed layer and evaluate the coefficient oracle"""
+    j = Y.J()
+    from fdtdx import constants
+    c = inp["scene"]
+    sc = _Cfg() if not c.get("spec") else scene_of(c)
+    L, plus, given = inp["L"], inp["plus"], inp["grading"]
+    n = c["shape"]
+    box = [(0, n[0]), (0, n[1]), (0, n[2])]
+    box[0] = (n[0] - L, n[0]) if plus else (0, L)
+    q = j["fdtdx"].PerfectlyMatchedLayer(axis=0, partial_grid_shape=(L, None, None), direction="+" if plus else "-",
+                                         name="direct", **given)
+    q = q.place_on_grid(tuple(box), sc.config, j["jax"].random.PRNGKey(0))
+    e_all = edges_of(c, 0)
+    return layer_oracle(P.coef_arrays(q), plus, L, None if e_all is None else e_all[box[0][0]:box[0][1] + 1], grading_of(q),
+                        float(sc.config.time_step_duration), float(constants.eps0), default_sigma_end="sigma_end" not in given)
+
+
 def search(ctx, hints):
     for h in hints:
         if isinstance(h, dict):
             ctx.impl_property_evals += 1
             d = property_fails(h)
             if d:
-                ctx.violation(h if h.get("kind") == "scenario" else dict(kind="scene", scene=h.get("scene", h)), d)
+                keep = h.get("kind") == "scenario" or (h.get("kind") == "coef" and h.get("label", "").startswith("direct"))
+                ctx.violation(h if keep else dict(kind="scene", scene=h.get("scene", h)), d)
                 return
     rng = ctx.rng.fork()
-    # the property's scenario, smallest first
+    # the property's scenario: residual-energy clause, then the reference-domain clause (reference enlarged by 12 cells
+    # per side here to keep the search affordable; baseline 1e-10 .. 3e-8 against the 1e-4 threshold)
     for i in range(ctx.scale(3, 8)):
-        s = gen_scenario(rng, False, ["dipole_e", "dipole_m", "plane"][i % 3])
+        s = gen_scenario(rng, False, ["dipole_e", "plane", "dipole_m"][i % 3])
+        s["reference"], s["pad"] = True, 12
         ctx.impl_property_evals += 1
         d = scenario_fails(s)
         if d:
-            ctx.violation(dict(kind="scenario", **s), d)
+            ctx.violation(s, d)
             return
     for i in range(ctx.scale(3, 10)):
         c = gen_scene(rng, i % 2 == 1)
